@@ -37,10 +37,10 @@ func (s *c05Src) Int63() int64 {
 func (s *c05Src) Seed(int64) {}
 
 type c05Case struct {
-	Min   time.Duration `json:"min"`
-	Max   time.Duration `json:"max"`
-	I     int           `json:"index"`
-	Draw  int64         `json:"draw_ns"`
+	Min  time.Duration `json:"min"`
+	Max  time.Duration `json:"max"`
+	I    int           `json:"index"`
+	Draw int64         `json:"draw_ns"`
 }
 
 func c05Draws(min, max time.Duration) []int64 {
@@ -230,7 +230,7 @@ func c05Loop(t *testing.T, c c05LoopCase) (viol [][2]string, gaps []time.Duratio
 					bad("C05:loop-destination", "request for %s", ip)
 				}
 				at = append(at, time.Now())
-			case <-time.After(2 * c.Max + 2*time.Second):
+			case <-time.After(2*c.Max + 2*time.Second):
 				bad("C05:loop-stalled", "no RA request within 2*max after %d requests", len(at))
 				cancel()
 				<-done
